@@ -46,6 +46,7 @@ func isNamed(t types.Type, pkg, name string) bool {
 
 func DiscoverRoles(p *Prog) *Roles {
 	ro := &Roles{p: p, T: NewTerms(p), CG: BuildCallGraph(p), ConnRawIdx: -1, ConnBufIdx: -1}
+	ro.T.FieldWrites = fieldWriteSummaries(p, ro.CG, ro.T)
 	// ctxio.Conn: the named struct in ctxio with a net.Conn field and a *bufio.Reader field
 	if pk := p.Pkgs[pkgCtxio]; pk != nil {
 		sc := pk.Types.Scope()
